@@ -60,7 +60,12 @@ TWaitTimedOutEnd == IsEvent("Wait") /\ Ev.a = 1 /\ Ev.c = 1 /\ m.pc = "out" /\ U
 TWaitWake == IsEvent("WaitWake") /\ Ev.a = 0 /\ WaitWake
 TWaitTimeout == IsEvent("WaitWake") /\ Ev.a = 1 /\ WaitTimeout
 TStop == IsEvent("Stop") /\ StopStep /\ m.loopI < m.nInit /\ Ev.w = m.loopI + 1 /\ Ev.nsig >= 1
-TStopDone == IsEvent("StopDone") /\ StopStep /\ m.loopI >= m.nInit
+TStopDone == IsEvent("StopDone") /\ Ev.a = 0 /\ StopStep /\ m.loopI >= m.nInit
+\* re-initialisation: threads_stop(coder, true); its waiting loop has no hooks and is taken silently
+TAppReinit == IsEvent("AppReinit") /\ AppReinit
+TRStop == IsEvent("Stop") /\ RStop /\ m.loopI < m.nInit /\ Ev.w = m.loopI + 1 /\ Ev.nsig >= 1
+TRStopDone == IsEvent("StopDone") /\ Ev.a = 1 /\ RStop /\ m.loopI >= m.nInit
+TReinited == IsEvent("Reinited") /\ Ev.a = 0 /\ m.pc = "out" /\ m.given = 0 /\ m.seq = "HDR" /\ UNCHANGED vars
 TEndSignal == IsEvent("EndSignal") /\ EndSignal /\ m.loopI < m.nInit /\ Ev.w = m.loopI + 1 /\ Ev.nsig >= 1
 TEndJoin == IsEvent("EndJoin") /\ EndJoin /\ m.loopI < m.nInit /\ Ev.w = m.loopI + 1
 TEndDone == IsEvent("EndDone") /\ EndJoin /\ m.loopI >= m.nInit
@@ -98,12 +103,12 @@ TWFinCoder == /\ IsEvent("WFinCoder") /\ WFinCoderTo(Ev.w, Ev.b)
               /\ Ev.nsig >= 1
 
 Logged == TReset \/ TCall \/ TRet \/ TProgress \/ TBlkRead \/ TGtPop \/ TCreate \/ TGtStart \/ TCopy \/ TPublish \/ TBlkErr
-          \/ TWaitPark \/ TWaitGo \/ TWaitTimedOutEnd \/ TWaitWake \/ TWaitTimeout \/ TStop \/ TStopDone
+          \/ TAppReinit \/ TRStop \/ TRStopDone \/ TReinited \/ TWaitPark \/ TWaitGo \/ TWaitTimedOutEnd \/ TWaitWake \/ TWaitTimeout \/ TStop \/ TStopDone
           \/ TEndSignal \/ TEndJoin \/ TEndDone \/ TAppEnd \/ TFreed
           \/ TWTop \/ TWWake \/ TWEncInit \/ TWError \/ TWEncSyncBegin \/ TWEncSync \/ TWEncCode \/ TWEncWaitFin
           \/ TWFinThr \/ TWFinCoder
 
-Silent == /\ (Run \/ EncIn \/ Decide \/ (EndSignal /\ m.loopI >= m.nInit) \/ (\E w \in W : WAfter(w)))
+Silent == /\ (Run \/ EncIn \/ Decide \/ (EndSignal /\ m.loopI >= m.nInit) \/ (\E w \in W : WAfter(w)) \/ RWait \/ RWaitWake)
           /\ UNCHANGED l
 
 TNext == Logged \/ Silent
